@@ -57,7 +57,24 @@ def claims_table():
     return "\n".join(rows)
 
 
-BLOCKS = {"seeded": seeded_table, "fixed": fixed_table, "findings": findings_table, "claims": claims_table}
+def refactors_table():
+    d0 = ROOT + "/refactors"
+    rows = ["| refactor | property | what was rewritten (behaviour-preserving) | `./check <prop>` (quick) |", "|---|---|---|---|"]
+    if not os.path.isdir(d0):
+        return "(none)"
+    for d in sorted(os.listdir(d0)):
+        p = "%s/%s/meta.json" % (d0, d)
+        if not os.path.exists(p):
+            continue
+        m = json.load(open(p))
+        what = " ".join((m.get("what") or "").strip().split("\n")[:2]).lstrip("# ").replace("|", "/")[:170]
+        cr = m.get("check_result")
+        res = ("stayed green (exit 0)" if cr.get("stayed_green") else "FALSE ALARM (%s)" % cr.get("exit")) if isinstance(cr, dict) else "not yet run"
+        rows.append("| %s | %s | %s | %s |" % (d, m.get("property"), what, res))
+    return "\n".join(rows)
+
+
+BLOCKS = {"refactors": refactors_table, "seeded": seeded_table, "fixed": fixed_table, "findings": findings_table, "claims": claims_table}
 
 
 def main():
